@@ -22,7 +22,7 @@ THEOREMS = ['byte_rt', 'byte_overflow', 'bool_rt', 'u32_rt', 'u32_overflow', 'st
             'kexinit_rt', 'padLen_bounds', 'frame_eq', 'frame_wf', 'frame_read_back', 'frame_rfc', 'crc_fold', 'crc_table_eq_spec', 'crcCalc_lt', 'frame1_read_back', 'frames_read_back']
 # functions of the code whose Lean definitions are regenerated from the source on every run (harness/translate_logic.py); `GenLogic.<name>_eq_model`
 # (lean/SshAudit/Props/GenLogic*.lean) ties each to the hand-written model function the theorems above are about
-GEN_LOGIC = ['ssh1_crc32_table', 'ssh1_crc32_calc', 'mpint_length', 'send_packet_framing', 'read_packet1_lengths', 'read_packet2_lengths', 'parse_mpint', 'mpint2_pad_fmt', 'create_mpint', 'mpint1_nbytes']
+GEN_LOGIC = ['ssh1_crc32_table', 'ssh1_crc32_calc', 'mpint_length', 'send_packet_framing', 'read_packet1_lengths', 'read_packet2_lengths', 'parse_mpint', 'mpint2_pad_fmt', 'create_mpint', 'mpint1_nbytes', 'kex_write']
 TECHNIQUE = 'Lean 4 theorems (induction, omega, kernel-evaluated 256-entry CRC table) over a hand-written codec model + differential correspondence with the Python codecs'
 LEVEL_TEXT = ('Round-trip, framing and CRC statements are proved for every value and every byte string (unbounded) about the Lean model of the '
               'buffer classes; the model is executed by a compiled driver and compared op-by-op with the real ReadBuf/WriteBuf/SSH_Socket/'
@@ -627,11 +627,17 @@ def oracle(op, arg, res, fail):
                 fail('kexinit_fields_misassigned', op, arg, {k: got[k] for k in bad[:3]}, {k: want[k] for k in bad[:3]})
     elif op == 'kex.reencode':
         # re-encoding a decoded message yields the same bytes (canonical inputs: no trailing data, bool in {0,1}, ASCII)
-        try:
-            arg.decode('ascii')
-            ascii_ok = True
-        except UnicodeDecodeError:
-            ascii_ok = False
+        # ASCII is asked of the ten name-list bodies only (the cookie and the length fields are arbitrary bytes)
+        pos, ascii_ok = 16, len(arg) >= 16
+        for _ in range(10):
+            if not ascii_ok or pos + 4 > len(arg):
+                ascii_ok = False
+                break
+            n = struct.unpack('>I', arg[pos:pos + 4])[0]
+            if pos + 4 + n > len(arg) or any(c >= 0x80 for c in arg[pos + 4:pos + 4 + n]):
+                ascii_ok = False
+                break
+            pos += 4 + n
         got = bytes.fromhex(res['ok'])
         if ascii_ok and arg[:len(got)] != got:
             # boolean canonicalisation is the only tolerated difference
